@@ -71,7 +71,7 @@ PROPS['C16'] = dict(
     only_prefix=['c16_', 'c18_slider_path_cache'],
     kani_functions=['src/section/hit_objects/slider/curve.rs :: fn calculate_length'],
     explanation='see level_text; per-obligation statements in coverage.samples[].states',
-    trusted_base=_CURVE_TRUST, assumptions=['requested length finite and > 0 (L <= 0 and non-finite L are outside the statement)'],
+    trusted_base=_CURVE_TRUST, assumptions=['requested length finite and > 0 (L <= 0 and non-finite L are outside the statement)', 'unit cat: machine arithmetic treated as mathematical -- f64 `+` and `-` are total and exact on the reals (five admitted axioms, listed in trusted_base); distances are an uninterpreted function of the two points'],
     not_decided=['numeric facts (never decrease, finite) on paths longer than the bound', 'float rounding in the Catmull surplus (the conservation law is proved over idealised arithmetic)', 'the cut point is interpolated on the segment it falls in (value of the re-projected end vertex: float products)'],
 )
 
